@@ -133,7 +133,9 @@ class Result:
     def seen(self, name, token):
         self.sets.setdefault(name, set()).add(token)
 
-    def violate(self, clause, **detail):
+    def violate(self, clause, ctx=None, **detail):
+        if ctx:
+            detail = {**{k: v for k, v in ctx.items() if k not in detail}, **detail}
         if self.verdict != VIOLATED:
             self.verdict = VIOLATED
             self.witness = {"clause": clause, "detail": detail}
